@@ -22,13 +22,18 @@ pub async fn declaration(
             let DocumentCursor { doc, context, .. } = cursor;
             if let Some(entry) = context {
                 match &entry {
-                    GlobalEntry::Type(t) => {
+                    GlobalEntry::Type(_) => {
                         // early return for int;
                         if &ident.value == "int" {
                             return Ok(None);
                         }
                         if let Some(entry) = doc.table.lookup(&ident.value) {
-                            let tokens = &doc.tokens[t.to_range()];
+                            // predefined entities have no declaration
+                            if Entry::from(entry).is_default() {
+                                return Ok(None);
+                            }
+                            // the name's range is relative to the declaration it belongs to
+                            let tokens = &doc.tokens[entry.to_range()];
                             return Ok(Some(Location {
                                 uri,
                                 range: as_pos_range(&entry.to_text_range(tokens), &doc.text),
